@@ -20,6 +20,7 @@ VARIABLES tr, i,
           evals, firstEvalT, pendingV,
           progS, progF,
           cancelT, timeoutSeen, retSeen, ret,
+          lastCleanT,       \* when a worker last became free (an iteration's cleanups finished); -1: never
           ninv,             \* light runs: number of invocations of the iteration function, counted by the harness (-1: not told)
           dupSeen,          \* an iteration id was observed twice: bookkeeping keyed by id is unreliable from then on (C03's business)
           preCancelled,     \* cancel() had RETURNED while setup was still running: triggering starts on a dead context
@@ -30,7 +31,7 @@ VARIABLES tr, i,
           why
 vars == <<tr, i, setupSeen, ids, liveIds, liveH, endedIds, cleaned, succT, failT, sumTicks, lateSum, dropSum,
           stopSeen, limitSeen, evals, firstEvalT, pendingV, progS, progF, cancelT, timeoutSeen, retSeen, ret,
-          mS, mF, mD, mSetup, mSetupRes, labelsBad, stageCur, stageOpen, setupCleanupSeen, rvOK, lmax, skipped, preCancelled, ninv, dupSeen, why>>
+          mS, mF, mD, mSetup, mSetupRes, labelsBad, stageCur, stageOpen, setupCleanupSeen, rvOK, lmax, skipped, preCancelled, ninv, dupSeen, lastCleanT, why>>
 
 Cfg == T[tr].cfg
 Min(a, b) == IF a < b THEN a ELSE b
@@ -54,7 +55,7 @@ Init == /\ tr \in 1..Len(T) /\ i = 0
         /\ ret = [s |-> 0, f |-> 0, d |-> 0, t |-> 0]
         /\ mS = 0 /\ mF = 0 /\ mD = 0 /\ mSetup = 0 /\ mSetupRes = "" /\ labelsBad = FALSE
         /\ stageCur = 0 /\ stageOpen = FALSE /\ setupCleanupSeen = FALSE /\ rvOK = FALSE /\ lmax = 0 /\ skipped = 0
-        /\ preCancelled = FALSE /\ ninv = -1 /\ dupSeen = FALSE
+        /\ preCancelled = FALSE /\ ninv = -1 /\ dupSeen = FALSE /\ lastCleanT = -1
         /\ why = IF T[tr].err = "" THEN {} ELSE {F("MACHINERY", T[tr].err)}
 
 Unch(vs) == UNCHANGED vs
@@ -116,7 +117,13 @@ DropEv(e) ==
         limitAlone == limitSeen /\ cancelT < 0 /\ e.c + SLACK < Deadline
     IN /\ why' = why \cup Fails(<<
             <<Cfg.mode = "file" \/ started + dropSum + e.a <= sumTicks + lateSum, "C02", "more-started-plus-dropped-than-requested">>,
-            <<~(e.b = 1 /\ limitAlone), "C02", "limit-discard-reported-as-dropped">> >>)
+            <<~(e.b = 1 /\ limitAlone), "C02", "limit-discard-reported-as-dropped">>,
+            \* the same by counts: max-iterations iterations have been started, workers of the CONFIGURED concurrency are
+            \* free and have been for 100 ms, nobody cancelled and the deadline is ahead - a request that is still pending
+            \* at a tick could not start solely because of the limit
+            <<~(e.a > 0 /\ Cfg.maxiter > 0 /\ ~Cfg.light /\ ~Cfg.pool_only /\ Cfg.mode # "file" /\ ~dupSeen
+                /\ started >= Cfg.maxiter /\ Cardinality(liveH) < Cfg.conc /\ e.c > lastCleanT + 100000
+                /\ cancelT < 0 /\ e.c + SLACK < Deadline), "C02", "limit-discard-reported-as-dropped">> >>)
        /\ dropSum' = dropSum + e.a
        /\ Unch(<<lmax, skipped, setupSeen, ids, liveIds, liveH, endedIds, cleaned, succT, failT, sumTicks, lateSum, stopSeen, limitSeen, evals,
                  firstEvalT, pendingV, progS, progF, cancelT, timeoutSeen, retSeen, ret, mS, mF, mD, mSetup, mSetupRes,
@@ -372,6 +379,7 @@ Next == /\ i < Len(T[tr].ev)
         \* set by the one event that changes it; every other event leaves it
         /\ preCancelled' = IF T[tr].ev[i + 1].k = "cancelret" THEN (setupSeen = -1) ELSE preCancelled
         /\ ninv' = IF T[tr].ev[i + 1].k = "invocations" THEN T[tr].ev[i + 1].a ELSE ninv
+        /\ lastCleanT' = IF T[tr].ev[i + 1].k = "cleanup" THEN T[tr].ev[i + 1].c ELSE lastCleanT
         /\ dupSeen' = (dupSeen \/ (T[tr].ev[i + 1].k = "start" /\ T[tr].ev[i + 1].a \in ids)
                               \/ (T[tr].ev[i + 1].k = "idrange" /\ T[tr].ev[i + 1].a <= lmax))
         /\ LET e == T[tr].ev[i + 1] IN
